@@ -548,7 +548,7 @@ def collect_into(E, it, target):
             elif tl == 'PathBuf':
                 from .models_io import pathbuf_push
                 pb = VecV(out, 'PathBuf')
-                pathbuf_push(E, pb, as_slice(x))
+                pathbuf_push(E, pb, x)       # pathbuf_push takes slices and Component values
                 out = pb.buf
             else:
                 out += list(items_of(x))
